@@ -432,6 +432,98 @@ def history_oracle(seed, tier):
     return res
 
 
+def _canon_reqs(reqs):
+    return [(r['op'], tuple(sorted((k, repr(v)) for k, v in r['args'].items() if k not in FIXED and k not in ('UploadId', 'MultipartUpload'))))
+            for r in reqs]
+
+
+def caller_dict_oracle(seed, tier):
+    """What reaches S3 is what was passed to the call: the caller's `extra_args` dict is the caller's.
+    One dict object is reused from call to call (the usual loop over files).  Each transfer's requests
+    must equal those of the same call made with a private copy on a fresh manager, and the library must
+    leave the caller's dict as it found it (otherwise what it added is sent with the next call).
+    Both checksum configurations of the client."""
+    from s3transfer.subscribers import BaseSubscriber
+    res = OracleResult('C15')
+    rng = rng_for(seed, 'args-caller-dict')
+    kinds = ['upload', 'download', 'copy', 'delete']
+    allowed = {k: allowed_names(HIST_KINDS[k]) for k in kinds}
+    for _ in range(60 if tier == 'quick' else 2000):
+        rcc = rng.choice(['when_supported', 'when_required'])
+        thr = rng.choice([100, 5])
+        fake = FakeS3(request_checksum_calculation=rcc)
+        fake.objects[('b', 'k')] = DATA
+        fake.objects[('sb', 'sk')] = DATA
+        tm = _tm(fake, multipart_threshold=thr)
+        shared = {}
+        hist = []
+        try:
+            for _step in range(rng.randrange(1, 5)):
+                kind = rng.choice(kinds)
+                names = rng.sample(allowed[kind], rng.randrange(0, 4))
+                fo = [n for n in names if n in FO]
+                for n in fo[1:]:
+                    names.remove(n)
+                snapshot = {n: value_for(n) for n in names}
+                shared.clear()
+                shared.update(snapshot)
+                empties = False    # (a caller changing its dict while the transfer is queued is the caller's business: download / copy / delete keep a reference)
+
+                class Caller(BaseSubscriber):
+                    def on_queued(self, future, **kw):
+                        if empties:
+                            shared.clear()
+                fake.objects[('b', 'k')] = DATA
+                before = len(fake.requests())
+                err = None
+                try:
+                    if kind == 'upload':
+                        tm.upload(io.BytesIO(DATA), 'b', 'k2', extra_args=shared, subscribers=[Caller()]).result()
+                    elif kind == 'download':
+                        tm.download('b', 'k', io.BytesIO(), extra_args=shared, subscribers=[Caller()]).result()
+                    elif kind == 'copy':
+                        tm.copy({'Bucket': 'sb', 'Key': 'sk'}, 'b', 'k2', extra_args=shared, subscribers=[Caller()]).result()
+                    else:
+                        tm.delete('b', 'k', extra_args=shared, subscribers=[Caller()]).result()
+                except Exception as e:   # noqa
+                    err = e
+                got = _canon_reqs(fake.requests()[before:])
+                # reference: the same call with a private copy, nothing shared, fresh manager
+                ref_fake = FakeS3(request_checksum_calculation=rcc)
+                ref_fake.objects[('b', 'k')] = DATA
+                ref_fake.objects[('sb', 'sk')] = DATA
+                ref_tm = _tm(ref_fake, multipart_threshold=thr)
+                ref_err = None
+                try:
+                    _hist_call(kind, ref_tm, None, list(snapshot.items()), None)
+                except Exception as e:   # noqa
+                    ref_err = e
+                finally:
+                    ref_tm.shutdown()
+                want = _canon_reqs(ref_fake.requests())
+                hist.append({'method': kind, 'extra_args': dict(snapshot), 'caller_empties_its_dict_while_queued': empties})
+                res.evaluations += 1
+                res.hit('%s:%s:%s' % (kind, rcc, 'multipart' if thr == 5 else 'single'))
+                wit = {'request_checksum_calculation': rcc, 'multipart_threshold': thr, 'history': list(hist)}
+                if (err is None) != (ref_err is None) or got != want:
+                    diff = [x for x in got if x not in want][:2] + [('missing',) + x for x in want if x not in got][:2]
+                    res.violation('caller-dict:requests-differ:%s' % kind, wit,
+                                  '%s sent %r; the same call with a private copy of extra_args sends otherwise (error %r / %r)' % (kind, diff, err, ref_err))
+                if not empties and shared != snapshot:
+                    res.violation('caller-dict:modified:%s' % kind, dict(wit, after=dict(shared)),
+                                  "%s changed the caller's extra_args: %r became %r" % (kind, snapshot, dict(shared)))
+                if names:
+                    res.nontrivial.add((kind, rcc, thr, tuple(sorted(names)), empties))
+                if res.enough():
+                    break
+        finally:
+            tm.shutdown()
+        if res.enough():
+            break
+    res.samples.append({'history': hist, 'request_checksum_calculation': rcc})
+    return res
+
+
 def provided_size_oracle(seed, tier):
     """C08: a size supplied during on_queued suppresses the size-discovery request — for downloads and
     copies, for every size including 0, and the transfer still moves exactly that object."""
